@@ -11,6 +11,8 @@ from ..lib import FAILED
 from ..runner import Sub
 
 ID = 'C12'
+TECHNIQUE = 'PBT + per-cluster arg-max validity predicate + independent rational score model'
+LEVEL_TEXT = 'Exploration: One member per cluster, arg-max of smooth_ranking (exact), score model on well-conditioned clusters, hull and corner variants. Finds counter-examples (shrunk to a replay file); never proves absence.'
 RULE = ('Cases = (valid curve n >= 5; interior knee subset of 2..12 knees incl. adjacent indices and knees on '
         'plateaus; linkage x threshold x ranking mode in {left, linear, right, hull} + corner variant).  Oracle: '
         'output strictly increasing subset of the knees; non-hull: exactly one member of every cluster (clusters '
